@@ -97,12 +97,32 @@ def c02_stages(tier):
     return st
 
 
+def pscale_variants(modes, every, only_ops=None):
+    """adds copies of (a sample of) the scripts whose decision predicates are multiplied by exact powers of two in the harness:
+    the same half-spaces with ill-conditioned ("alt20") or tiny ("tiny60") numbers; recorded trees are scaled back exactly"""
+    def post(scripts, seed, tier):
+        extra = []
+        for i, s in enumerate(scripts):
+            if i % every != 0 or len(s.get('lhs', [])) < 2:
+                continue
+            if only_ops is not None and not all(st.get('op') in only_ops for st in s.get('steps', [])):
+                continue
+            for m in modes:
+                c = dict(s)
+                c['pscale'] = m
+                c.pop('exp', None)
+                extra.append(c)
+        return scripts + extra
+    return post
+
+
 def regions_nontrivial(s):
     return {k: v for k, v in s.items() if k not in ('sc', 'exp')} if len(s.get('lhs', [])) >= 2 else None
 
 
 def RG(name, cfg):
-    return Stage(name, 'Trace_Regions', mc=('MC_AffTree', cfg), nontrivial=regions_nontrivial, shard_events=300, mc_workers=12)
+    return Stage(name, 'Trace_Regions', mc=('MC_AffTree', cfg), nontrivial=regions_nontrivial, shard_events=300, mc_workers=12,
+                 post=pscale_variants(['tiny60', 'alt20'], 7))
 
 
 def c09_stages(tier):
@@ -121,7 +141,8 @@ def HS(name, cfg, **kw):
 
 
 def prune_stages(tier):
-    st = [HS('prune-q', 'MC_AffTree_prune_q.cfg'), HS('prune-2d', 'MC_AffTree_prune_2d.cfg'), HS('prune-d3', 'MC_AffTree_prune_d3.cfg'),
+    st = [HS('prune-q', 'MC_AffTree_prune_q.cfg', post=pscale_variants(['alt20'], 3, only_ops={'eliminate'})),
+          HS('prune-2d', 'MC_AffTree_prune_2d.cfg'), HS('prune-d3', 'MC_AffTree_prune_d3.cfg'),
           HS('pruneg-q', 'MC_AffTree_pruneg_q.cfg'), HS('prunea-q', 'MC_AffTree_prunea_q.cfg')]
     if tier == 'thorough':
         st += [HS('prune-t', 'MC_AffTree_prune_t.cfg'), HS('pruneg-t', 'MC_AffTree_pruneg_t.cfg')]
